@@ -65,6 +65,11 @@ func (ex *Exec) harnessIntrinsic(fr *Frame, name string, args []Value, g *T) (Va
 		ex.nondets = append(ex.nondets, NondetRec{Name: base, Var: vn, Kind: "real", Lo: ratToFloat(lo.r), Hi: ratToFloat(hi.r)})
 		ex.assumes = append(ex.assumes, And(Le(lo, v), Le(v, hi)))
 		return v, FF, true
+	case "vhInstantiate":
+		// registers a term at which the universally quantified part of a callee summary (completeness of the
+		// root finder) is instantiated
+		ex.instTerms = append(ex.instTerms, args[0].(*T))
+		return nil, FF, true
 	case "vhStr":
 		base := strArg(args[0])
 		vn := ex.freshName(base)
@@ -139,6 +144,9 @@ func (ex *Exec) intrinsic(fr *Frame, fn *ssa.Function, args []Value, env []Value
 		if r, p, ok := ex.harnessIntrinsic(fr, fn.Name(), args, g); ok {
 			return r, p, true
 		}
+	}
+	if strings.HasSuffix(name, "/internal/geom.solve3") && ex.consts["SUMMARY_SOLVE3"] == 1 {
+		return ex.solve3Summary(args, g), FF, true
 	}
 	switch name {
 	case "time.Now":
@@ -251,6 +259,25 @@ func (ex *Exec) intrinsic(fr *Frame, fn *ssa.Function, args []Value, env []Value
 				return RF(math.Acos(f(0))), FF, true
 			case "math.Atan":
 				return RF(math.Atan(f(0))), FF, true
+			}
+		}
+		// Angle terms: Atan2(y,x) / Atan(t) = Atan2(t,1) are opaque angle variables that remember their
+		// arguments; Cos((angle + 2k*pi)/3) is then introduced by its defining polynomial equation
+		// (triple-angle identity) and the interval that singles out the branch -- exact in real arithmetic.
+		if name == "math.Atan2" || name == "math.Atan" {
+			av := RealVar(ex.freshName("angle"))
+			if name == "math.Atan2" {
+				angleOf[av.id] = [2]*T{args[0].(*T), args[1].(*T)}
+			} else {
+				angleOf[av.id] = [2]*T{args[0].(*T), RI(1)}
+			}
+			ex.stub(name + " of a symbolic value = opaque angle (only cos((angle + 2k*pi)/3), k in {-1,0,1}, is interpreted, by the triple-angle identity; any other use is unconstrained)")
+			ex.inexact[name+" as opaque angle"]++
+			return av, FF, true
+		}
+		if name == "math.Cos" {
+			if cv, ok := ex.cosThird(args[0].(*T), g); ok {
+				return cv, FF, true
 			}
 		}
 		ex.stub(name + " of a symbolic value = unconstrained fresh value (uninterpreted: a proof holds for the real function, a sat answer is only a candidate)")
@@ -452,4 +479,140 @@ func mapIteConst(t *T, f func(*T) *T, depth int) (*T, bool) {
 		}
 	}
 	return nil, false
+}
+
+
+// angleOf: angle variable id -> (y, x) of the Atan2 that produced it.
+var angleOf = map[int][2]*T{}
+
+// linAngle decomposes t = alpha*theta + beta with theta an angle variable.
+func linAngle(t *T) (theta *T, alpha, beta *big.Rat, ok bool) {
+	if _, is := angleOf[t.id]; is && t.op == "var" {
+		return t, big.NewRat(1, 1), new(big.Rat), true
+	}
+	switch {
+	case t.op == "+" && len(t.a) == 2:
+		if isC(t.a[1]) {
+			if th, al, be, ok := linAngle(t.a[0]); ok {
+				return th, al, new(big.Rat).Add(be, t.a[1].r), true
+			}
+		}
+		if isC(t.a[0]) {
+			if th, al, be, ok := linAngle(t.a[1]); ok {
+				return th, al, new(big.Rat).Add(be, t.a[0].r), true
+			}
+		}
+	case t.op == "-" && len(t.a) == 2 && isC(t.a[1]):
+		if th, al, be, ok := linAngle(t.a[0]); ok {
+			return th, al, new(big.Rat).Sub(be, t.a[1].r), true
+		}
+	case t.op == "*" && len(t.a) == 2:
+		x, c := t.a[0], t.a[1]
+		if isC(x) {
+			x, c = c, x
+		}
+		if isC(c) {
+			if th, al, be, ok := linAngle(x); ok {
+				return th, new(big.Rat).Mul(al, c.r), new(big.Rat).Mul(be, c.r), true
+			}
+		}
+	}
+	return nil, nil, nil, false
+}
+
+// cosThird: Cos(theta/3 + 2k*pi/3) for an angle variable theta = Atan2(y, x), k in {-1,0,1}.
+// c is the unique real with 4c^3 - 3c = cos(theta) = x/hypot(x,y) inside the interval of the branch.
+func (ex *Exec) cosThird(arg *T, g *T) (*T, bool) {
+	th, al, be, ok := linAngle(arg)
+	if !ok || al.Cmp(big.NewRat(1, 3)) != 0 {
+		return nil, false
+	}
+	bf := ratToFloat(be)
+	k := 99
+	for _, kk := range []int{-1, 0, 1} {
+		if math.Abs(bf-float64(kk)*2*math.Pi/3) < 1e-9 {
+			k = kk
+		}
+	}
+	if k == 99 {
+		return nil, false
+	}
+	yx := angleOf[th.id]
+	y, x := yx[0], yx[1]
+	ex.stub("math.Cos((Atan2(y,x) + 2k*pi)/3), k in {-1,0,1} = c with (4c^3 - 3c)*hypot(x,y) = x and c in the interval of the branch (exact real value; math.Pi taken as the real pi; Atan2(-0, x<0) = -pi not modelled)")
+	ex.inexact["math.Cos of a third of an angle (exact real value instead of the rounded float)"]++
+	c := RealVar(ex.freshName("cos3"))
+	h := RealVar(ex.freshName("hyp3"))
+	half := R(big.NewRat(1, 2))
+	mhalf := R(big.NewRat(-1, 2))
+	one, mone, zero := RI(1), RI(-1), RI(0)
+	in := func(lo, hi *T) *T { return And(Lt(lo, c), Lt(c, hi)) }
+	var ypos, yneg, th0, thpi *T
+	switch k {
+	case 0:
+		ypos, yneg, th0, thpi = in(half, one), in(half, one), Eq(c, one), Eq(c, half)
+	case 1:
+		ypos, yneg, th0, thpi = in(mone, mhalf), in(mhalf, half), Eq(c, mhalf), Eq(c, mone)
+	default:
+		ypos, yneg, th0, thpi = in(mhalf, half), in(mone, mhalf), Eq(c, mhalf), Eq(c, half)
+	}
+	c3 := Mul(Mul(c, c), c)
+	poly := Sub(Mul(RI(4), c3), Mul(RI(3), c))
+	def := And(And(Le(zero, h), Eq(Mul(h, h), Add(Mul(x, x), Mul(y, y)))),
+		Ite(Lt(zero, y), And(ypos, Eq(Mul(poly, h), x)),
+			Ite(Lt(y, zero), And(yneg, Eq(Mul(poly, h), x)),
+				Ite(Lt(x, zero), thpi, th0))))
+	ex.assumes = append(ex.assumes, Or(Not(g), def))
+	return c, true
+}
+
+
+// solve3Summary replaces a call of geom.solve3 by its contract -- the contract that the obligations
+// rootfinder-linear-quadratic, rootfinder-cubic-cardano and rootfinder-cubic-trig establish for the real
+// body (assume-guarantee): with the effective degree chosen by the code's epsilon test (|coefficient| <
+// 1e-7 counts as zero), the result is nil for the all-zero polynomial, otherwise a slice of 0..3 values,
+// each of which is a root of the truncated polynomial, and every real root of the truncated polynomial is
+// among them. The universally quantified completeness part is instantiated at the terms the harness
+// registered with vhInstantiate (any instance of a valid contract is a valid consequence).
+func (ex *Exec) solve3Summary(args []Value, g *T) Value {
+	co := args[0].(SliceV)
+	var c [4]*T
+	for i := range c {
+		c[i] = ex.readSlice(co, I(int64(i))).(*T)
+	}
+	ex.stub("geom.solve3 = its contract as established by the rootfinder-* obligations of this check (sound and complete for the epsilon-truncated polynomial; completeness instantiated at the harness' registered terms)")
+	eps := RF(1e-7)
+	z := func(x *T) *T { return And(Lt(x, eps), Lt(Neg(eps), x)) } // aeq0
+	z3, z2, z1, z0 := z(c[3]), z(c[2]), z(c[1]), z(c[0])
+	// truncated polynomial at x
+	pt := func(x *T) *T {
+		x2 := Mul(x, x)
+		x3 := Mul(x2, x)
+		cubic := Add(Add(Add(Mul(c[3], x3), Mul(c[2], x2)), Mul(c[1], x)), c[0])
+		quad := Add(Add(Mul(c[2], x2), Mul(c[1], x)), c[0])
+		lin := Add(Mul(c[1], x), c[0])
+		return Ite(Not(z3), cubic, Ite(Not(z2), quad, Ite(Not(z1), lin, c[0])))
+	}
+	isNil := AndN(z3, z2, z1, z0)
+	constant := AndN(z3, z2, z1, Not(z0))
+	n := IntVar(ex.freshName("nroots"), 0, 3)
+	var r [3]*T
+	cells := make([]Value, 3)
+	cons := []*T{Implies(Or(isNil, constant), Eq(n, I(0))),
+		Implies(AndN(z3, z2, Not(z1)), Eq(n, I(1))), // linear: exactly one value
+		Implies(And(z3, Not(z2)), Le(n, I(2)))}      // quadratic: at most two
+	for i := range r {
+		r[i] = RealVar(ex.freshName("root"))
+		cells[i] = r[i]
+		cons = append(cons, Implies(Lt(I(int64(i)), n), Eq(pt(r[i]), RI(0))))
+	}
+	for _, x := range ex.instTerms {
+		hit := FF
+		for i := range r {
+			hit = Or(hit, And(Lt(I(int64(i)), n), Eq(x, r[i])))
+		}
+		cons = append(cons, Implies(AndN(Not(isNil), Eq(pt(x), RI(0))), hit))
+	}
+	ex.assumes = append(ex.assumes, Or(Not(g), AndN(cons...)))
+	return SliceV{[]SC{{Not(isNil), newObj(ArrayV{cells}, nil)}}, I(0), Ite(isNil, I(0), n), I(3)}
 }
